@@ -179,6 +179,7 @@ func c12HasNext(v bool, useNil bool) *bool {
 type c12Exec struct {
 	n      int // payloads
 	reject bool
+	spaced bool // payload data carries insignificant white space incl. a line break (as graphql.MarshalAny / MarshalMap emit through json.Encoder)
 }
 
 func (e *c12Exec) CreateOperationContext(ctx context.Context, params *graphql.RawParams) (*graphql.OperationContext, gqlerror.List) {
@@ -197,6 +198,9 @@ func (e *c12Exec) DispatchOperation(ctx context.Context, rc *graphql.OperationCo
 		k++
 		if !zzsym.Symbolic() {
 			time.Sleep(3 * time.Millisecond) // natively: give the 1ms keep-alive ticker a chance to fire between payloads
+		}
+		if e.spaced {
+			return &graphql.Response{Data: json.RawMessage(`{"k":` + string(rune('0'+k)) + `,"m":{"a":[1, 2]}` + "\n" + `}`)}
 		}
 		return &graphql.Response{Data: json.RawMessage(`{"k":` + string(rune('0'+k)) + `}`)}
 	}, ctx
@@ -244,6 +248,8 @@ func c12ParseSSE(body string) (datas []string, pings int, ok bool) {
 func Harness_C12_sse() {
 	ex := &c12Exec{n: zzsym.Choice("payloads", zzsym.Param("maxpayloads", 2)+1), reject: zzsym.Choice("reject", 2) == 1}
 	keepAlive := zzsym.Choice("keepalive", 2) == 1
+	// (the framing of payload contents does not depend on the schedule: explored without the ticker)
+	ex.spaced = ex.n > 0 && !ex.reject && !keepAlive && zzsym.Choice("spaced", 2) == 1
 	w := &c12Writer{hdr: http.Header{}, preempt: keepAlive}
 	ctx, cancel := context.WithCancel(context.Background())
 	r := (&http.Request{Method: "POST", Header: http.Header{}, URL: &url.URL{Path: "/"}, Body: io.NopCloser(strings.NewReader(`{"query":"subscription { x }"}`))}).WithContext(ctx)
@@ -268,7 +274,7 @@ func Harness_C12_sse() {
 	for k, d := range datas {
 		zzsym.Assert(json.Valid([]byte(d)), "every next event carries valid JSON")
 		if !ex.reject {
-			zzsym.Assert(strings.Contains(d, `{"k":`+string(rune('1'+k))+`}`), "payloads are delivered in order")
+			zzsym.Assert(strings.Contains(d, `{"k":`+string(rune('1'+k))), "payloads are delivered in order")
 		}
 	}
 	zzsym.Assert(w.hdr.Get("Content-Type") == "text/event-stream", "the stream is served as text/event-stream")
